@@ -447,7 +447,23 @@ pub fn construct<'a, V: Visit<'a>>(
             if pad_first {
                 b = b.padding(*padding);
             }
-            b = b.ntp_timestamp(*ntp).rtp_timestamp(*rtp).packet_count(*pc).octet_count(*oc);
+            // the four scalar setters are independent: order picked by the contents (all 24 occur over a workload)
+            {
+                let mut h = crate::source::mix(*ntp ^ ((*ssrc as u64) << 7), ((*rtp as u64) << 32) | (*pc ^ oc.rotate_left(13)) as u64);
+                let mut o = [0usize, 1, 2, 3];
+                for i in (1..4).rev() {
+                    h = crate::source::mix(h, i as u64);
+                    o.swap(i, (h % (i as u64 + 1)) as usize);
+                }
+                for k in o {
+                    b = match k {
+                        0 => b.ntp_timestamp(*ntp),
+                        1 => b.rtp_timestamp(*rtp),
+                        2 => b.packet_count(*pc),
+                        _ => b.octet_count(*oc),
+                    };
+                }
+            }
             for (k, rb) in blocks.iter().enumerate() {
                 b = pr!(b.add_report_block(mk_rb(rb)));
                 if how.reconf && k == 0 {
@@ -554,6 +570,17 @@ pub fn construct<'a, V: Visit<'a>>(
         Cfg::Fb { kind, sender, media, fci, padding } => {
             let idx = *next;
             *next += 1;
+            // the two SSRC setters are independent: which comes first is picked by the contents
+            macro_rules! sm {
+                ($b:expr) => {{
+                    let b = $b;
+                    if (*sender ^ *media ^ (*padding as u32 >> 2)) & 1 == 0 {
+                        b.sender_ssrc(*sender).media_ssrc(*media)
+                    } else {
+                        b.media_ssrc(*media).sender_ssrc(*sender)
+                    }
+                }};
+            }
             match (kind, how.owned) {
                 (FbKind::Transport, false) if how.reconf => out!(pr!(pr!(rc!(TransportFeedback::builder(fcis[idx].as_dyn())
                     .sender_ssrc(!*sender)
@@ -569,14 +596,8 @@ pub fn construct<'a, V: Visit<'a>>(
                 .media_ssrc(*media)
                 .sender_ssrc(*sender))
                 .padding(*padding))),
-                (FbKind::Transport, false) => out!(pr!(pr!(TransportFeedback::builder(fcis[idx].as_dyn())
-                    .sender_ssrc(*sender)
-                    .media_ssrc(*media))
-                .padding(*padding))),
-                (FbKind::Payload, false) => out!(pr!(pr!(PayloadFeedback::builder(fcis[idx].as_dyn())
-                    .sender_ssrc(*sender)
-                    .media_ssrc(*media))
-                .padding(*padding))),
+                (FbKind::Transport, false) => out!(pr!(pr!(sm!(TransportFeedback::builder(fcis[idx].as_dyn()))).padding(*padding))),
+                (FbKind::Payload, false) => out!(pr!(pr!(sm!(PayloadFeedback::builder(fcis[idx].as_dyn()))).padding(*padding))),
                 (FbKind::Transport, true) => {
                     let b = match fci {
                         Fci::Nack(l) => TransportFeedback::builder_owned(mk_nack(l)),
@@ -588,7 +609,7 @@ pub fn construct<'a, V: Visit<'a>>(
                         Fci::Fir(l) => TransportFeedback::builder_owned(mk_fir(l)),
                     };
                     let b = if how.reconf { rc!(b.sender_ssrc(!*sender).media_ssrc(!*media).padding(junk_pad(*padding))) } else { b };
-                    out!(pr!(pr!(b.sender_ssrc(*sender).media_ssrc(*media)).padding(*padding)))
+                    out!(pr!(pr!(sm!(b)).padding(*padding)))
                 }
                 (FbKind::Payload, true) => {
                     let b = match fci {
@@ -601,7 +622,7 @@ pub fn construct<'a, V: Visit<'a>>(
                         Fci::Fir(l) => PayloadFeedback::builder_owned(mk_fir(l)),
                     };
                     let b = if how.reconf { rc!(b.padding(junk_pad(*padding)).media_ssrc(!*media).sender_ssrc(!*sender)) } else { b };
-                    out!(pr!(pr!(b.sender_ssrc(*sender).media_ssrc(*media)).padding(*padding)))
+                    out!(pr!(pr!(sm!(b)).padding(*padding)))
                 }
             }
         }
